@@ -38,7 +38,7 @@ EXPLANATION = (
     "result column of the same fluid class; (R2.5) barometric formula, real-gas density, norm factors; (R2.6) "
     "AREA = D^2*pi/4; (R2.7) _mm/_km columns are scaled by 1000 on their way into the pit; (R2.8, thorough) the "
     "Jacobian slots are the symbolic derivatives of the residual. The numba twins are tied to the numpy kernels by "
-    "C07. Decided: the residual driven to zero IS the documented law and reported quantities are wired to it; not "
+    "C07. (R2.9, shared with C07 R7.1) the numba twins of the hydraulic kernels compute the same residual and reported quantities as the numpy kernels the law is compared with. Decided: the residual driven to zero IS the documented law and reported quantities are wired to it; not "
     "decided: accuracy of a returned solution (C05's tolerance) or correctness of property data.")
 ASSUMPTIONS = [phys.POSITIVITY_TEXT,
                "the documented law is the transcription in /verif/ppsa/spec/laws.py (pipe_component.rst, Eberhard 1990, Cerbe 2008)",
